@@ -185,9 +185,9 @@ impl VaultFlags {
 /// element on which `p` answered true, `p` answered false on every element before it
 pub open spec fn first_match<F: Fn(&&Summary) -> bool>(s: Seq<Summary>, p: F, r: Option<Summary>) -> bool {
     match r {
-        Some(x) => exists|i: int| 0 <= i < s.len() && #[trigger] s[i] == x && p.ensures((&&s[i],), true)
-            && (forall|j: int| 0 <= j < i ==> p.ensures((&&#[trigger] s[j],), false)),
-        None => forall|j: int| 0 <= j < s.len() ==> p.ensures((&&#[trigger] s[j],), false),
+        Some(x) => exists|i: int| #![trigger s[i]] 0 <= i < s.len() && s[i] == x && p.ensures((&&s[i],), true)
+            && (forall|j: int| #![trigger s[j]] 0 <= j < i ==> p.ensures((&&s[j],), false)),
+        None => forall|j: int| #![trigger s[j]] 0 <= j < s.len() ==> p.ensures((&&s[j],), false),
     }
 }
 /// R12 `$v.iter().find($p)` on a `&Vec<Summary>` (traits.rs:291, :278, :281).  The bound `FnMut` is
@@ -197,6 +197,9 @@ pub fn vfind<'a, F: Fn(&&Summary) -> bool>(v: &'a Vec<Summary>, predicate: F) ->
     requires forall|s: &&Summary| #[trigger] predicate.requires((s,)),
     ensures first_match(v@, predicate, match r { Some(x) => Some(*x), None => None }),
 { unimplemented!() }
+/// `Option<&T>::copied` (core/src/option.rs): "Maps an Option<&T> to an Option<T> by copying the contents of the option"
+pub assume_specification<'a, T: Copy> [Option::<&'a T>::copied] (o: Option<&'a T>) -> (r: Option<T>)
+    ensures r == (match o { Some(x) => Some(*x), None => None });
 /// `Option<&T>::cloned` (core/src/option.rs): "Maps an Option<&T> to an Option<T> by cloning the contents"
 #[verifier::external_body]
 pub fn opt_cloned(o: Option<&Summary>) -> (r: Option<Summary>)
